@@ -11,8 +11,14 @@ SIZES = (16, 32, 64)
 KINDS = ('CpuToLe', 'CpuToBe', 'LeToCpu', 'BeToCpu')
 
 
-def harness_source():
-    lines = ['#include "avtp/Byteorder.h"']
+# the C library's own byte-order vocabulary in scope first (every example program includes these before the AVTP
+# headers): the helpers must be the same functions whatever the translation unit already defines
+LIBC_PRELUDE = ['#include <stdlib.h>', '#include <string.h>', '#include <endian.h>', '#include <byteswap.h>',
+                '#include <arpa/inet.h>', '#include <netinet/in.h>']
+
+
+def harness_source(prelude=()):
+    lines = list(prelude) + ['#include "avtp/Byteorder.h"']
     for n in SIZES:
         t = 'uint%d_t' % n
         lines.append('%s h_Bswap%d(%s x) { return Avtp_Bswap%d(x); }' % (t, n, t, n))
@@ -21,16 +27,16 @@ def harness_source():
     return '\n'.join(lines) + '\n'
 
 
-def load(target, d):
-    src = os.path.join(d, 'byteorder_harness.c')
+def load(target, d, prelude=(), name=''):
+    src = os.path.join(d, 'byteorder_harness%s.c' % name)
     with open(src, 'w') as f:
-        f.write(harness_source())
+        f.write(harness_source(prelude))
     try:
         _, std = build.library_units()
-        bcs = build.compile_units([src], os.path.join(d, 'bo_' + target), target=target, std=std)
+        bcs = build.compile_units([src], os.path.join(d, 'bo_' + target + name), target=target, std=std)
     except build.BuildError as e:
         raise Broken('byte-order helper unit does not compile (a helper named in DESIGN.md 4.13 is missing?): %s' % e)
-    ll = os.path.join(d, 'bo_%s.ll' % target)
+    ll = os.path.join(d, 'bo_%s%s.ll' % (target, name))
     build.link_ll(bcs, ll)
     return irparse.parse_module(open(ll).read(), ll)
 
@@ -64,7 +70,8 @@ def argbyte(n, j):
 
 def run(tier, res):
     d = build.scratch()
-    mods = {'le': load('le', d), 'be': load('be', d)}
+    mods = {'le': load('le', d), 'be': load('be', d),
+            'le, after <endian.h>, <byteswap.h>, <arpa/inet.h>': load('le', d, LIBC_PRELUDE, '_libc')}
     results = {}
     for tg, mod in mods.items():
         big = mod.big_endian
@@ -157,7 +164,7 @@ def run(tier, res):
                 res.violation('mirror:%s%d' % (a, n), 'include/avtp/Byteorder.h: Avtp_%s%d on a little-endian host and Avtp_%s%d on a '
                               'big-endian host are not the same function of the value' % (a, n, b, n))
     build.cleanup()
-    res.rule = ('15 helpers x {little, big}-endian target: closed form of the result over a symbolic value; swap = byte reversal and '
+    res.rule = ('15 helpers x {little, big}-endian target, little-endian target again with the C library byte-order headers included first}: closed form of the result over a symbolic value; swap = byte reversal and '
                 'involution; memory image of CpuToBe/CpuToLe through the target datalayout; to-host inverts from-host; the two '
                 'preprocessor branches are mirror images')
     res.extra['exhaustive'] = True
